@@ -9,7 +9,7 @@ wt=${EVALWT:-/tmp/evalwt.$$}
 out=$(mktemp -d /tmp/evalout.XXXXXX)
 mkdir -p $out/evidence
 [ -d $wt ] || git -C /repo worktree add --detach $wt HEAD >/dev/null 2>&1
-git -C $wt reset -q --hard HEAD
+git -C $wt reset -q --hard HEAD; git -C $wt clean -fdq
 if ! git -C $wt apply $patch 2>/dev/null; then
   if ! git -C $wt apply --3way $patch >/dev/null 2>&1; then echo "$patch APPLY-FAILED"; rm -rf $out; exit 2; fi
 fi
@@ -19,6 +19,6 @@ echo "$patch violated=[${ids%,}]"
 if [ "${VERBOSE:-0}" = 1 ]; then
   grep -E '\[(violated|undecided|unresolved|below-floor|fatal)\]' $out/log | sed "s#$wt/##" | cut -c1-400 | sed 's/^/    /'
 fi
-git -C $wt reset -q --hard HEAD
+git -C $wt reset -q --hard HEAD; git -C $wt clean -fdq
 [ -n "${EVALWT:-}" ] || { git -C /repo worktree remove --force $wt; }
 rm -rf $out
